@@ -182,13 +182,15 @@ func cmdCheck(id string, args []string) int {
 		return 2
 	}
 	// run harnesses in parallel
+	// every harness may use up to 16 workers; a global semaphore of 16 running paths balances
+	// the cores between light and heavy harnesses
 	par := len(hs)
-	if par > 8 {
-		par = 8
+	per := 16
+	if par > 4 {
+		per = 8
 	}
-	per := 16 / par
-	if per < 1 {
-		per = 1
+	if par > 10 {
+		per = 4
 	}
 	results := make([]*HarnessResult, len(hs))
 	var wg sync.WaitGroup
